@@ -473,3 +473,48 @@ Proof.
   rewrite map_nth, nth_range_from by exact Hlt. rewrite Z2Nat.id by lia. simpl.
   destruct (flat_unflat ns k Hp Hk). split; assumption.
 Qed.
+
+(** ** combined statements used by Props/C16.v *)
+Lemma flat_bijective_lemma : forall ns,
+  (forall id, valid ns id -> 0 <= flat ns id < number_of_cells ns /\ unflat ns (flat ns id) = id) /\
+  (positive_counts ns -> forall k, 0 <= k < number_of_cells ns ->
+     flat ns (unflat ns k) = k /\ valid ns (unflat ns k)).
+Proof.
+  intros ns. split.
+  - intros id H. split; [apply flat_range | apply unflat_flat]; assumption.
+  - intros Hp k Hk. apply flat_unflat; assumption.
+Qed.
+
+Lemma nearby_characterised_lemma : forall l ns a b,
+  (In b (nearby_p l ns a) <-> near l ns a b) /\ NoDup (nearby_p l ns a).
+Proof. intros. split; [apply In_nearby_p | apply nearby_p_NoDup]. Qed.
+
+Lemma neighbor_unit_lemma : forall ns a d positive, valid ns a ->
+  neighbor_p ns a d positive = translate ns a (unit_cell ns d positive) /\
+  neighbor_p ns (neighbor_p ns a d positive) d (negb positive) = a.
+Proof. intros. split; [apply neighbor_is_translate_unit | apply neighbor_p_inverse]; assumption. Qed.
+
+Lemma nonperiodic_relations_lemma : forall l ns a,
+  valid ns a ->
+  (forall d positive b, neighbor_np ns a d positive = Some b ->
+     b = neighbor_p ns a d positive /\ 0 <= nth d a 0 + sgn positive < nth d ns 0) /\
+  (forall d positive, (d < length ns)%nat ->
+     (neighbor_np ns a d positive = None <-> ~ (0 <= nth d a 0 + sgn positive < nth d ns 0))) /\
+  (forall b, In b (nearby_np l ns a) <-> near_np l ns a b) /\
+  (forall b, In b (nearby_np l ns a) -> In b (nearby_p l ns a)) /\
+  (forall b, valid ns b -> (In b (nearby_np l ns a) <-> In a (nearby_np l ns b))) /\
+  (0 <= l -> In a (nearby_np l ns a)).
+Proof.
+  intros l ns a H. repeat split.
+  - apply (neighbor_np_some ns a d positive b H H0).
+  - apply (neighbor_np_some ns a d positive b H H0).
+  - apply (neighbor_np_some ns a d positive b H H0).
+  - apply (neighbor_np_none ns a d positive H H0).
+  - apply (neighbor_np_none ns a d positive H H0).
+  - apply In_nearby_np.
+  - apply In_nearby_np.
+  - apply nearby_np_subset.
+  - apply nearby_np_symmetric; assumption.
+  - apply nearby_np_symmetric; assumption.
+  - intros. apply nearby_np_refl; assumption.
+Qed.
